@@ -516,13 +516,20 @@ pub fn rejoin_reply(ctx: &mut Ctx) {
 pub fn rejoin_registered(ctx: &mut Ctx) {
     rejoin(ctx, 5)
 }
+/// C14: REP only; while the reply to the request that came in on the new connection is owed, a
+/// further recv is polled a few times and dropped: the owed reply is still accepted and reaches
+/// the connection that asked
+pub fn rejoin_owed_reply(ctx: &mut Ctx) {
+    rejoin(ctx, 6)
+}
 fn rejoin(ctx: &mut Ctx, judge: u8) {
-    let kind = if judge == 2 { Kind::Dealer } else if judge == 3 { Kind::Router } else if judge == 4 { Kind::Rep } else { [Kind::Router, Kind::Dealer, Kind::Rep, Kind::Pull, Kind::Xpub, Kind::Sub][(ctx.idx % 6) as usize] };
+    let kind = if judge == 2 { Kind::Dealer } else if judge == 3 { Kind::Router } else if judge == 4 || judge == 6 { Kind::Rep } else { [Kind::Router, Kind::Dealer, Kind::Rep, Kind::Pull, Kind::Xpub, Kind::Sub][(ctx.idx % 6) as usize] };
     let timing = (ctx.idx / 6) % 4; // when the second connection is opened
     // how the first connection ends: orderly close, cut inside a message, reset - or not at all: it
     // stays open and idle (a half-open connection, or a second client configured with the same
     // identity), and the newcomer takes its place
     let how = (ctx.idx / 24) % 4;
+    let idx = ctx.idx;
     world::swarm(ctx, SwarmOpts::default());
     let out: Rc<RefCell<(bool, Vec<(&'static str, String)>, Vec<Arc<rt::net::Conn>>)>> = Rc::new(RefCell::new((false, vec![], vec![])));
     let o2 = out.clone();
@@ -610,7 +617,16 @@ fn rejoin(ctx: &mut Ctx, judge: u8) {
                     if tag_of(&f) == Some((1, 7)) {
                         got = true;
                         if kind == Kind::Rep {
-                            let _ = sock.send(to_zmq(&[b"r".to_vec()])).await;
+                            if judge == 6 {
+                                let k = 1 + (idx / 96) % 3;
+                                let _ = rt::future::or_idle(rt::future::poll_budget(sock.recv(), k as u32)).await;
+                                rt::count("fault_recv_cancelled");
+                            }
+                            if let Err(e) = sock.send(to_zmq(&[b"r".to_vec()])).await {
+                                if judge == 6 {
+                                    o2.borrow_mut().1.push(("owed_reply_refused", format!("REP (first connection ended by {}, rejoin timing {timing}): the request of the rejoined peer was received; a further recv was polled and dropped; the reply was then refused: {e}", ["close", "cut inside a message", "reset", "nothing (it stays open and idle)"][how as usize])));
+                                }
+                            }
                         }
                         break;
                     }
@@ -713,7 +729,7 @@ fn rejoin(ctx: &mut Ctx, judge: u8) {
     ctx.check_panics();
     let o = out.borrow();
     for (c, d) in o.1.clone() {
-        if judge == 1 && c != "rejoined_peer_not_heard" || judge == 2 && c != "rejoined_peer_not_reachable" || judge == 3 && !matches!(c, "rejoined_peer_not_reachable" | "rejoined_peer_label_wrong") || judge == 4 && !matches!(c, "rejoined_peer_not_reachable" | "reply_on_the_old_connection") || judge == 5 && !matches!(c, "rejoined_peer_not_heard" | "rejoined_peer_not_reachable" | "rejoined_peer_label_wrong") {
+        if judge == 1 && c != "rejoined_peer_not_heard" || judge == 2 && c != "rejoined_peer_not_reachable" || judge == 3 && !matches!(c, "rejoined_peer_not_reachable" | "rejoined_peer_label_wrong") || judge == 4 && !matches!(c, "rejoined_peer_not_reachable" | "reply_on_the_old_connection") || judge == 5 && !matches!(c, "rejoined_peer_not_heard" | "rejoined_peer_not_reachable" | "rejoined_peer_label_wrong") || judge == 6 && !matches!(c, "owed_reply_refused" | "rejoined_peer_not_reachable" | "reply_on_the_old_connection") {
             continue;
         }
         ctx.violation(&format!("{c}:{}", kind.name()), d);
